@@ -32,14 +32,14 @@ import "github.com/insomniacslk/dhcp/dhcpv4"
 //@ contract (*Server).Serve
 //@   requires s != nil && s.conn != nil && s.logger != nil && s.Handler != nil
 //@   ensures[returns-on-read-error] result != nil
-//@   after `n, peer, err := s.conn.ReadFrom(rbuf)` let S0 = spawned()
-//@   after `n, peer, err := s.conn.ReadFrom(rbuf)` let N0 = allocstamp()
+//@   after `call:ReadFrom` let S0 = spawned()
+//@   after `call:ReadFrom` let N0 = allocstamp()
 //@   after `s.logger.Printf("Error parsing DHCPv4 request: %v", err)` assert[undecodable-not-dispatched] spawned() == S0 && !dhcpv4.SpecAcceptV4(string(rbuf[:n]))
 //@   after `s.logger.Printf("Not a UDP connection? Peer is %s", peer)` assert[non-udp-not-dispatched] spawned() == S0
-//@   after `go s.Handler(s.conn, upeer, m)` assert[dispatched-once] spawned() == S0 + 1 && dhcpv4.SpecAcceptV4(string(rbuf[:n])) && m != nil && fresh(m)
-//@   after `go s.Handler(s.conn, upeer, m)` assert[message-of-this-datagram] string(m.TransactionID[:]) == string(rbuf[:n])[4:8] && int(m.OpCode) == int(rbuf[0])
-//@   after `go s.Handler(s.conn, upeer, m)` assert[own-message] ref(m) >= N0 && ref(m.Options) >= N0
-//@   after `go s.Handler(s.conn, upeer, m)` assert[peer-bcast] peer.(*net.UDPAddr).IP == nil ==> fresh(upeer) && ref(upeer) >= N0 && upeer.Port == peer.(*net.UDPAddr).Port
-//@   after `go s.Handler(s.conn, upeer, m)` assert[peer] upeer != nil && typeIs(peer, *net.UDPAddr) && upeer.Port == peer.(*net.UDPAddr).Port
+//@   after `go:` assert[dispatched-once] spawned() == S0 + 1 && dhcpv4.SpecAcceptV4(string(rbuf[:n])) && m != nil && fresh(m)
+//@   after `go:` assert[message-of-this-datagram] string(m.TransactionID[:]) == string(rbuf[:n])[4:8] && int(m.OpCode) == int(rbuf[0])
+//@   after `go:` assert[own-message] ref(m) >= N0 && ref(m.Options) >= N0
+//@   after `go:` assert[peer-bcast] peer.(*net.UDPAddr).IP == nil ==> fresh(upeer) && ref(upeer) >= N0 && upeer.Port == peer.(*net.UDPAddr).Port
+//@   after `go:` assert[peer] upeer != nil && typeIs(peer, *net.UDPAddr) && upeer.Port == peer.(*net.UDPAddr).Port
 
 var _ = dhcpv4.SpecAcceptV4
